@@ -12,7 +12,7 @@ def run_histories(ctx, cases, batch=8):
         il, ml = impl.get(c["id"], ["<missing>"]), model.get(c["id"], ["<missing>"])
         why = histgen.check_history(sch, c["h"], il) + histgen.check_reader_dump(sch, c["h"], il)
         crash = [l for l in il if l.startswith("CRASH")]
-        if crash: why.append(("C03", "implementation crashed: " + crash[0][:200]))
+        if crash: why.append(("CRASH", "the implementation crashed on this (legal) API history: " + crash[0][:300]))
         c["oracle"] = why
         c["impl"] = il
         a, b = histgen.canon_lines(il), histgen.canon_lines(ml)
@@ -80,8 +80,9 @@ def finish(ctx, pid, cases, diffs, rule, related=()):
     rep = ctx["report"]
     fails, other = [], []
     for c in cases:
-        mine = [m for (p, m) in c["oracle"] if p == pid or p in related]
-        rest = [(p, m) for (p, m) in c["oracle"] if not (p == pid or p in related)]
+        # a crash (sanitizer report, abort) of the real library on a legal history is a failing input of whichever property is being checked
+        mine = [m for (p, m) in c["oracle"] if p == pid or p in related or p == "CRASH"]
+        rest = [(p, m) for (p, m) in c["oracle"] if not (p == pid or p in related or p == "CRASH")]
         if mine: fails.append((c["id"], c, mine[0], c.get("impl_tail", [])))
         elif rest: other.append((c["id"], c, "%s oracle: %s" % rest[0]))
     common.summarize_cov(rep, cases, rule, diffs, fails)
